@@ -1,6 +1,8 @@
 """C08 — array, scalar, time-type and dtype semantics are uniform across the API."""
 import datetime as dt
+import inspect
 import math
+import sys
 import warnings
 
 import numpy as np
@@ -10,68 +12,128 @@ import orbits
 
 ID = "C08"
 LEAN_TARGETS = ["PV.Props.C08"]
-RULE = ("(1) kinds: the COMPLETE product {sun_zenith_angle, cos_zen, get_alt_az, observer_position, gmst, jdays} x time kinds "
-        "{datetime, datetime64[s|ms|us|ns], object array, datetime64 array} x coordinate kinds {python int, float, numpy "
-        "float64/float32/int64 scalars, 0-d array, 1-d and 2-d float32/float64/int64 arrays, dask float32/float64}: result "
-        "container/dtype/rank model vs code (exhaustive); (2) one instant in every time representation: bit-identical "
-        "results of every time-dependent entry point; (3) array calls vs the scalar calls after broadcasting (1e-6 of the "
-        "unit) for get_position, get_lonlatalt, both look functions, the sun functions, observer_position, gmst, jdays; "
-        "distinct = (function, kinds) or (function, instant)")
-ASSUMPTIONS = ["dask laziness and xarray wrappers are library behaviour (enumerated by kind, not modelled beyond the kind)",
+RULE = ("(1) kinds: the COMPLETE product {sun_zenith_angle, cos_zen, get_alt_az, observer_position, gmst, jdays} x 10 time kinds "
+        "{datetime, datetime64[ns|us|ms|s|m], object array 1-d/2-d, datetime64 array 1-d/2-d} x 23 coordinate kinds {python int, "
+        "float, numpy float32/float64/int64 scalars, 0-d/1-d/2-d float32/float64/int64 ndarrays, 0-d/1-d/2-d "
+        "float32/float64/int64 dask arrays}: branches taken (dt2np, _days, cast-back guards: observed by line tracing) and "
+        "container/dtype/rank of every returned component, model vs code (exhaustive; base instant = a seeded whole minute "
+        "1990-2040, distinct values per element); the transfer functions of the abstract domain vs numpy/dask on all pairs of "
+        "abstract values (exhaustive); (2) one seeded instant (epoch +-30 d of a real or generated TLE; 50 % whole seconds, "
+        "15 % whole minutes) in every representation: bit-identical results of every time-dependent entry point; (3) array "
+        "calls (shapes (6,), (6,)x(2,1), (2,3)) vs the scalar calls after broadcasting (1e-6 of the unit) for get_position, "
+        "get_lonlatalt, both look functions, the sun functions, observer_position, gmst, jdays; "
+        "distinct = (function, time kind, coordinate kind) cell, (function, instant) or (function, shapes, orbit)")
+ASSUMPTIONS = ["orbit cases are (element set, instant) pairs at which the propagated radius is 6300..100000 km; decayed element sets "
+               "(radius 1e6 km and more a few days from epoch) are outside the sampled domain",
+               "dask laziness and xarray wrappers are library behaviour (dask enumerated by kind and probed for laziness with a "
+               "side-effecting block function; xarray not covered)",
                "instants are representable in microseconds (datetime resolution); sub-microsecond datetime64[ns] values have no "
                "datetime counterpart to be bit-identical with",
                "the 1e-6 array-vs-scalar bound through the joint loops (np.all exits) relies on the contraction of the "
-               "iterations: measured"]
-TRUSTED = ["model PV.Model.Kinds (abstract interpretation of the dtype/scalar guards)", "PV.Model.Time (tick arithmetic incl. the ns split)",
+               "iterations: measured, the theorem gives 'scalar iterate continued k >= 0 steps'",
+               "binary64: int -> double exact below 2**53, division correctly rounded, x + 0.0 == x: assumed (IEEE-754), the "
+               "rounding function itself is arbitrary in the theorems"]
+TRUSTED = ["model PV.Model.Kinds (abstract interpretation of the dtype/scalar guards; its transfer functions are compared with "
+           "numpy 2.x / dask on all pairs of abstract values)", "PV.Model.Time (tick arithmetic incl. the ns split)",
            "PV.Model.Joint (np.all loop exits)"]
-LEVEL_TEXT = ("Theorems: over the complete finite product of function x time kind x coordinate kind the model's result descriptor "
-              "(scalar/ndarray/dask, float32/float64, rank) equals the statement's table (ints at real values, scalars give "
-              "scalars, float32 gives float32, dask stays lazy) and is never an error; an instant representable in microseconds "
-              "yields the same day-count term in every unit (the ns path adds an exactly-zero remainder term); tick counts "
-              "1900-2100 are below 2^53; an element of a joint (np.all) iteration equals its own scalar iterate continued for "
-              "k >= 0 further steps, and a stuck (NaN) element blocks the unrepaired exit test but not the repaired one. Tie: "
-              "exhaustive enumeration of the kind product against the real functions; bit-identity and array-vs-scalar "
-              "agreement measured on sampled instants.")
-LEVEL_NOTE = ("Trusted: Lean kernel; hand-written kind model + exhaustive correspondence; numpy/dask casting rules as observed; "
-              "the 1e-6 continuation bound is measured.")
-TECHNIQUE = "Lean 4 proof (decide over the finite kind product; tick-arithmetic identities; induction on joint iteration) + exhaustive kind correspondence + bit-identity oracle"
+LEVEL_TEXT = ("Theorems: over the complete finite product of function x time kind x coordinate kind (6 x 10 x 23) the model's "
+              "result descriptors (scalar/ndarray/dask, float32/float64, rank), the cast-back guards with their dtype and the "
+              "dt2np/_days branches equal the statement's table (ints at real values, scalars give scalars, float32 gives "
+              "float32, dask stays lazy, results broadcast to the common shape) and no cell raises; an instant held in any "
+              "unit denotes the same rational day count; for ANY rounding function equal rationals with operands below 2^53 "
+              "give the same double, tick counts 1900-2100 are below 2^53 in us and coarser units, the ns path's remainder term "
+              "is exactly zero, hence one double for every representation; ns tick counts exceed 2^53 beyond 104 days from "
+              "J2000 and are then in general no doubles; an element of a joint (np.all) iteration equals its own scalar "
+              "iterate continued for k >= 0 further steps (do-while and test-first/Newton forms, any step and test), a stuck "
+              "(NaN) element blocks the unrepaired exit test for ever but not the repaired one. Tie: exhaustive enumeration of "
+              "the kind product and of the abstract transfer functions against the real functions / numpy / dask; day counts "
+              "bit-exact; bit-identity and array-vs-scalar agreement measured on sampled instants.")
+LEVEL_NOTE = ("Trusted: Lean kernel; hand-written kind model + exhaustive correspondence; numpy/dask casting rules as observed "
+              "(numpy >= 2 promotion); IEEE-754 exactness facts are hypotheses of the bit-identity theorems; the 1e-6 "
+              "continuation bound is measured.")
+TECHNIQUE = ("Lean 4 proof (decide over the finite kind product; tick-arithmetic identities over Q; induction on joint "
+             "iteration) + exhaustive kind correspondence with line tracing + bit-identity oracle")
 
-COORD_KINDS = ["pyint", "pyfloat", "npf64", "npf32", "npi64", "arr0_f64", "arr1_f32", "arr1_f64", "arr1_i64",
-               "arr2_f32", "arr2_f64", "arr2_i64", "dask1_f32", "dask1_f64"]
-TIME_KINDS = ["datetime", "dt64s", "dt64ms", "dt64us", "dt64ns", "objarr1", "dtarr1"]
+UNITS = ["ns", "us", "ms", "s", "m"]
+DTS = {"f32": "float32", "f64": "float64", "i64": "int64"}
+TIME_KINDS = ["datetime"] + ["dt64" + u for u in UNITS] + ["objarr1", "objarr2", "dtarr1", "dtarr2"]
+COORD_KINDS = (["pyint", "pyfloat"] + ["np" + d for d in DTS] + ["arr%d_%s" % (r, d) for d in DTS for r in (0, 1, 2)]
+               + ["dask%d_%s" % (r, d) for d in DTS for r in (0, 1, 2)])
 FNS = ["sun_zenith_angle", "cos_zen", "get_alt_az", "observer_position", "gmst", "jdays"]
-N1, N2 = 3, 2
+COORD_FNS = FNS[:4]
+SHAPES = {0: (), 1: (3,), 2: (2, 3)}
+EPOCH70 = dt.datetime(1970, 1, 1)
 
 
-def mk_coord(kind, val):
-    import dask.array as da
-    if kind == "pyint":
-        return int(val)
-    if kind == "pyfloat":
-        return float(val)
-    if kind == "npf64":
-        return np.float64(val)
-    if kind == "npf32":
-        return np.float32(val)
-    if kind == "npi64":
-        return np.int64(val)
-    if kind == "arr0_f64":
-        return np.array(float(val))
-    base = np.linspace(val, val + 2, N1)
-    arr = np.tile(base, (N2, 1)) if kind.startswith("arr2") else base
-    arr = arr.astype({"f32": "float32", "f64": "float64", "i64": "int64"}[kind.split("_")[1]])
-    return da.from_array(arr) if kind.startswith("dask") else arr
+# ------------------------------------------------------------------ kinds: construction of the arguments
+def coord_rank(ck):
+    return int(ck[3]) if ck.startswith("arr") else int(ck[4]) if ck.startswith("dask") else 0
 
 
-def mk_time(kind, t):
-    t = t.replace(microsecond=0)
-    if kind == "datetime":
-        return t
-    if kind.startswith("dt64"):
-        return np.datetime64(t).astype("datetime64[%s]" % kind[4:])
-    if kind == "objarr1":
-        return np.array([t] * N1, dtype=object)
-    return np.array([np.datetime64(t)] * N1)
+def coord_dt(ck):
+    if ck in ("pyint", "pyfloat"):
+        return {"pyint": "i64", "pyfloat": "f64"}[ck]
+    return ck[2:] if ck.startswith("np") else ck.split("_")[1]
+
+
+def time_rank(tk):
+    return int(tk[-1]) if tk.startswith(("objarr", "dtarr")) else 0
+
+
+def grid(shape, start):
+    """Distinct whole numbers start, start+1, ... of the given shape."""
+    n = int(np.prod(shape)) if shape else 1
+    return (np.arange(n) + start).reshape(shape)
+
+
+class Probe:
+    """Block function that records whether a dask graph was executed."""
+
+    def __init__(self):
+        self.calls = 0
+
+    def __call__(self, x):
+        self.calls += 1
+        return x
+
+
+def mk_coord(ck, start, probe=None):
+    vals = grid(SHAPES[coord_rank(ck)], start)
+    if ck == "pyint":
+        return int(vals)
+    if ck == "pyfloat":
+        return float(vals)
+    d = np.dtype(DTS[coord_dt(ck)])
+    if ck.startswith("np"):
+        return d.type(vals)
+    arr = np.asarray(vals, dtype=d)
+    if ck.startswith("dask"):
+        import dask.array as da
+        x = da.from_array(arr, chunks=arr.shape if arr.shape else -1)
+        if probe is not None:
+            x = x.map_blocks(probe, dtype=d, meta=np.array((), dtype=d))
+        return x
+    return arr
+
+
+def time_grid(tk, t0):
+    """datetimes of the time argument, as an object array of the argument's shape."""
+    hours = grid(SHAPES[time_rank(tk)], 0)
+    out = np.empty(hours.shape, dtype=object)
+    for idx in np.ndindex(hours.shape):
+        out[idx] = t0 + dt.timedelta(hours=int(hours[idx]))
+    return out
+
+
+def mk_time(tk, t0):
+    g = time_grid(tk, t0)
+    if tk == "datetime":
+        return g[()]
+    if tk.startswith("dt64"):
+        return np.datetime64(g[()]).astype("datetime64[%s]" % tk[4:])
+    if tk.startswith("objarr"):
+        return g
+    return g.astype("datetime64[us]")
 
 
 def descr(x):
@@ -82,70 +144,267 @@ def descr(x):
         return "ndarray:%s:%d" % (x.dtype, x.ndim)
     if isinstance(x, np.generic):
         return "scalar:%s:0" % x.dtype
-    if isinstance(x, float):
-        return "scalar:float64:0"
+    if type(x) is float:
+        return "pyscalar:float64:0"
+    if type(x) is int:
+        return "pyscalar:int:0"
     return "other:%s" % type(x).__name__
 
 
-def call(fn, t, ck):
+def flat(r):
+    if isinstance(r, tuple):
+        out = []
+        for x in r:
+            out += flat(x)
+        return out
+    return [r]
+
+
+def call(fn, t, lon, lat, alt):
     from pyorbital import astronomy
-    lon, lat = mk_coord(ck, 10), mk_coord(ck, 40)
     if fn == "observer_position":
-        r = astronomy.observer_position(t, lon, lat, mk_coord(ck, 0))
-        return list(r[0]) + list(r[1])
+        return flat(astronomy.observer_position(t, lon, lat, alt))
     if fn in ("gmst", "jdays"):
         return [getattr(astronomy, fn)(t)]
-    r = getattr(astronomy, fn)(t, lon, lat)
-    return list(r) if isinstance(r, tuple) else [r]
+    return flat(getattr(astronomy, fn)(t, lon, lat))
 
 
-def spec_descr(fn, tk, ck, i=0):
-    """The statement's table, written independently."""
-    t_arr = tk in ("objarr1", "dtarr1")
-    if fn in ("gmst", "jdays"):
-        return "ndarray:float64:1" if t_arr else "scalar:float64:0"
-    f32 = ck.endswith("f32")
-    dtype = "float32" if f32 else "float64"
-    if ck.startswith("dask"):
-        rank = 1
-        cont = "dask"
-    elif ck.startswith("arr2"):
-        cont, rank = "ndarray", 2
-    elif ck.startswith("arr1"):
-        cont, rank = "ndarray", 1
-    else:
-        cont, rank = ("ndarray", 1) if t_arr else ("scalar", 0)
-    return "%s:%s:%d" % (cont, dtype, rank)
+# ------------------------------------------------------------------ line tracing: which branch / guard ran
+class Tracer:
+    """Records the executed source lines of the watched functions (by stripped text)."""
+
+    def __init__(self):
+        from pyorbital import astronomy
+        import pyorbital
+        self.funcs = {}
+        for name in ("jdays2000", "_days", "cos_zen", "sun_zenith_angle", "get_alt_az", "observer_position"):
+            self.funcs[name] = getattr(astronomy, name)
+        self.funcs["dt2np"] = pyorbital.dt2np
+        self.src = {}
+        self.codes = {}
+        for name, f in self.funcs.items():
+            lines, first = inspect.getsourcelines(f)
+            self.src[name] = {first + i: ln.strip() for i, ln in enumerate(lines)}
+            self.codes[f.__code__] = name
+        self.seen = []
+
+    def _global(self, frame, event, arg):
+        name = self.codes.get(frame.f_code)
+        if name is None:
+            return None
+
+        def local(frame, event, arg):
+            if event == "line":
+                self.seen.append((name, self.src[name].get(frame.f_lineno, "")))
+            return local
+        return local
+
+    def run(self, f):
+        self.seen = []
+        old = sys.gettrace()
+        sys.settrace(self._global)
+        try:
+            return f()
+        finally:
+            sys.settrace(old)
+
+    def branches(self, fn):
+        """(dt2np branch, _days branch, guards in execution order) as the model names them."""
+        a = "astype" if any(n == "dt2np" and "astype" in s for n, s in self.seen) else "direct"
+        b = "split" if any(n == "_days" and s.startswith("whole =") for n, s in self.seen) else "direct"
+        guards = []
+        order = {"sun_zenith_angle": ["cos_zen", "sun_zenith_angle"], "cos_zen": ["cos_zen"], "get_alt_az": ["get_alt_az"],
+                 "observer_position": ["observer_position"]}.get(fn, [])
+        for g in order:
+            entered = any(n == g for n, s in self.seen)
+            fired = any(n == g and ".astype(" in s for n, s in self.seen)
+            guards.append("cast" if fired else "skip" if entered else "missing")
+        return a, b, ",".join(guards) if guards else "-"
+
+
+def observe(fn, tk, ck, t0, tracer):
+    """The real call, rendered like the model's `c08kind` line."""
+    t = mk_time(tk, t0)
+    lon, lat, alt = mk_coord(ck, 10), mk_coord(ck, 40), mk_coord(ck, 1)
+    try:
+        res = tracer.run(lambda: call(fn, t, lon, lat, alt))
+    except Exception as e:  # noqa
+        return "error:" + type(e).__name__
+    a, b, g = tracer.branches(fn)
+    return "%s/%s %s %s" % (a, b, g, " ".join(descr(x) for x in res))
+
+
+# ------------------------------------------------------------------ transfer functions of the abstract domain
+AV_TOKENS = (["pyint", "pyfloat"] + ["np:" + d for d in DTS.values()] + ["nd:%s:%d" % (d, r) for d in DTS.values() for r in (0, 1, 2)]
+             + ["da:%s:%d" % (d, r) for d in DTS.values() for r in (0, 1, 2)])
+
+
+def av_value(tok):
+    p = tok.split(":")
+    if p[0] == "pyint":
+        return 1
+    if p[0] == "pyfloat":
+        return 1.0
+    d = np.dtype(p[1])
+    if p[0] == "np":
+        return d.type(1)
+    arr = np.ones(SHAPES[int(p[2])], dtype=d)
+    if p[0] == "da":
+        import dask.array as da
+        return da.from_array(arr, chunks=arr.shape if arr.shape else -1)
+    return arr
+
+
+def av_token(x):
+    import dask.array as da
+    if isinstance(x, da.Array):
+        return "da:%s:%d" % (x.dtype, x.ndim)
+    if isinstance(x, np.ndarray):
+        return "nd:%s:%d" % (x.dtype, x.ndim)
+    if isinstance(x, np.generic):
+        return "np:%s" % x.dtype
+    if type(x) is float:
+        return "pyfloat"
+    if type(x) is int:
+        return "pyint"
+    return "other:" + type(x).__name__
+
+
+def impl_op(op, a, b=None):
+    """All numpy spellings of one abstract operation must agree; returns the set of observed tokens."""
+    from pyorbital import astronomy
+    import operator
+
+    def guard(f):
+        try:
+            return f()
+        except Exception as e:  # noqa
+            return "error:" + type(e).__name__
+    if op == "ufl":
+        return {guard(lambda f=f: av_token(f(a))) for f in (np.deg2rad, np.rad2deg, np.sin, np.cos, np.tan, np.sqrt, np.arcsin, np.arccos)}
+    if op == "neg":
+        return {guard(lambda: av_token(-a))}
+    if op == "isfloat":
+        return {"true" if isinstance(a, float) else "false"}
+    if op == "dtype":
+        return {guard(lambda: str(a.dtype))}
+    if op in ("astype32", "astype64"):
+        d = np.float32 if op == "astype32" else np.float64
+        return {guard(lambda: av_token(a.astype(d))), guard(lambda: av_token(a.astype(d, copy=False)))}
+    if op == "sibling":
+        return {guard(lambda: av_token(astronomy._float_to_sibling_result(0.0, a)))}
+    if op == "arith":
+        return {guard(lambda f=f: av_token(f(a, b))) for f in (operator.add, operator.sub, operator.mul, operator.mod, operator.pow)}
+    if op == "tdiv":
+        return {guard(lambda: av_token(a / b))}
+    if op == "ufl2":
+        return {guard(lambda: av_token(np.arctan2(a, b)))}
+    raise ValueError(op)
+
+
+UNARY_OPS = ["ufl", "neg", "isfloat", "dtype", "astype32", "astype64", "sibling"]
+BINARY_OPS = ["arith", "tdiv", "ufl2"]
+
+
+# ------------------------------------------------------------------ joint loops: iteration counts of the real code
+def count_lines(func, marker, f):
+    """Run f(); count executions of the source line of `func` that starts with `marker`."""
+    lines, first = inspect.getsourcelines(func)
+    target = {first + i for i, ln in enumerate(lines) if ln.strip().startswith(marker)}
+    code = func.__code__
+    n = [0]
+
+    def glob(frame, event, arg):
+        if frame.f_code is not code:
+            return None
+
+        def local(frame, event, arg):
+            if event == "line" and frame.f_lineno in target:
+                n[0] += 1
+            return local
+        return local
+    old = sys.gettrace()
+    sys.settrace(glob)
+    try:
+        res = f()
+    finally:
+        sys.settrace(old)
+    return n[0], res
+
+
+def sane(o, t):
+    """The propagator answers at t with a radius a satellite can have (6300 .. 100000 km). Decayed element sets (B* ~ 0.1, days
+    from epoch) give radii of 1e6 km and more, where the ulp-level effect of extra joint Newton steps exceeds 1e-6 km."""
+    try:
+        p, _ = o.get_position(t, normalize=False)
+    except Exception:  # noqa  refusals are C13's subject
+        return False
+    r = float(np.sqrt(np.sum(np.asarray(p, dtype=float) ** 2)))
+    return 6300.0 <= r <= 100000.0
+
+
+def sane_times(ctx, o, k, days):
+    out = []
+    tries = 0
+    while len(out) < k and tries < 8 * k + 10:
+        tries += 1
+        t = orbits.rand_time(ctx, o, days)
+        if sane(o, t):
+            out.append(t)
+    return out
+
+
+def base_instant(ctx):
+    """A seeded whole minute between 1990 and 2040 (representable in every unit)."""
+    lo = int((dt.datetime(1990, 1, 1) - EPOCH70).total_seconds()) // 60
+    hi = int((dt.datetime(2040, 1, 1) - EPOCH70).total_seconds()) // 60
+    return EPOCH70 + dt.timedelta(minutes=ctx.rng.randrange(lo, hi))
 
 
 def correspond(ctx):
+    from pyorbital import astronomy, orbital
     drv = ctx.driver()
-    t0 = dt.datetime(2020, 6, 1, 12)
-    lines, exp = [], []
     with warnings.catch_warnings():
         warnings.simplefilter("ignore")
+        # (a) the abstract transfer functions against numpy / dask on every (pair of) abstract value(s)
+        lines, exp = [], []
+        for op in UNARY_OPS:
+            for a in AV_TOKENS:
+                lines.append("c08op %s %s" % (op, a))
+                exp.append((op, a, None, impl_op(op, av_value(a))))
+        for op in BINARY_OPS:
+            for a in AV_TOKENS:
+                for b in AV_TOKENS:
+                    lines.append("c08op %s %s %s" % (op, a, b))
+                    exp.append((op, a, b, impl_op(op, av_value(a), av_value(b))))
+        for (op, a, b, got), o in zip(exp, drv.run(lines)):
+            ctx.count("eval_corr_ops")
+            if got != {o}:
+                ctx.disagree("c08op", {"op": op, "a": a, "b": b}, sorted(got), o)
+        # (b) the complete product of kinds against the real functions
+        t0 = base_instant(ctx)
+        tracer = Tracer()
+        lines, exp = [], []
         for fn in FNS:
             for tk in TIME_KINDS:
-                t = mk_time(tk, t0)
-                for ck in (COORD_KINDS if fn not in ("gmst", "jdays") else ["pyfloat"]):
-                    try:
-                        got = " ".join(descr(x) for x in call(fn, t, ck))
-                    except Exception as e:  # noqa
-                        got = "error:" + type(e).__name__
+                for ck in COORD_KINDS:
                     lines.append("c08kind %s %s %s" % (fn, tk, ck))
-                    exp.append((fn, tk, ck, got))
-    outs = drv.run(lines)
-    for (fn, tk, ck, got), o in zip(exp, outs):
-        ctx.count("eval_corr_kinds")
-        ctx.distinct((fn, tk, ck))
-        ctx.bump("result_kind", got.split()[0])
-        if got != o:
-            ctx.disagree("c08kind", {"fn": fn, "time": tk, "coord": ck}, got, o)
-    ctx.exhaustive = True
-    ctx.sample({"fn": exp[0][0], "time": exp[0][1], "coord": exp[0][2], "result": exp[0][3]})
-    # day counts: ns path of the model (whole microseconds + zero remainder) is bit-identical to the us path
+                    exp.append((fn, tk, ck, observe(fn, tk, ck, t0, tracer)))
+        outs = drv.run(lines)
+        for (fn, tk, ck, got), o in zip(exp, outs):
+            ctx.count("eval_corr_kinds")
+            ctx.distinct((fn, tk, ck))
+            ctx.bump("result_kind", got.split()[2] if len(got.split()) > 2 else got)
+            ctx.bump("branches", " ".join(got.split()[:2]))
+            if got != o:
+                ctx.disagree("c08kind", {"fn": fn, "time": tk, "coord": ck, "t0": t0.isoformat()}, got, o)
+        ctx.exhaustive = True
+        ctx.note("kind product complete: %d cells; transfer functions complete: %d cases" % (
+            len(FNS) * len(TIME_KINDS) * len(COORD_KINDS), len(UNARY_OPS) * len(AV_TOKENS) + len(BINARY_OPS) * len(AV_TOKENS) ** 2))
+        for k in (0, 700, 1379):
+            ctx.sample({"fn": exp[k][0], "time": exp[k][1], "coord": exp[k][2], "observed": exp[k][3]})
+    # (c) day counts: the ns path of the model (whole microseconds + zero remainder) is bit-identical to the us path
     lines, exp = [], []
-    from pyorbital import astronomy
     for _ in range(ctx.size(1500, 40000)):
         us = ctx.rng.randrange(-2208988800 * 10 ** 6, 4133980800 * 10 ** 6)
         lines.append("jd us %d" % us)
@@ -156,135 +415,329 @@ def correspond(ctx):
         ctx.count("eval_corr_ticks")
         a, b = outs[2 * i], outs[2 * i + 1]
         impl = lib.f2h(float(astronomy.jdays2000(np.datetime64(us * 1000, "ns"))))
-        if a != b or a != impl:
-            ctx.disagree("jd-ns-vs-us", {"us": us}, impl, [a, b])
+        impl_us = lib.f2h(float(astronomy.jdays2000(np.datetime64(us, "us"))))
+        if a != b or a != impl or a != impl_us:
+            ctx.disagree("jd-ns-vs-us", {"us": us}, [impl_us, impl], [a, b])
+    # (d) joint loops: the model's loop shape against a numpy transcription of the code's loop on a toy step, and the
+    #     theorem's n <= N on the iteration counts of the real loops (line tracing)
+    lines, exp = [], []
+    for _ in range(ctx.size(40, 400)):
+        xs = [ctx.rng.choice([-1, ctx.rng.randrange(0, 10 ** 6)]) if ctx.rng.random() < 0.15 else ctx.rng.randrange(0, 10 ** 6)
+              for _ in range(ctx.rng.randrange(1, 6))]
+        for mode in "ur":
+            lines.append("c08joint 60 2 %s %s" % (mode, " ".join(map(str, xs))))
+            exp.append((mode, xs, toy_joint(xs, mode, 60)))
+    for (mode, xs, got), o in zip(exp, drv.run(lines)):
+        ctx.count("eval_corr_joint_toy")
+        if got != o:
+            ctx.disagree("c08joint", {"mode": mode, "xs": xs}, got, o)
+    objs = orbits.make_orbitals(ctx, ctx.size(4, 12))
+    for k in range(ctx.size(12, 150)):
+        a_, b_, o = objs[k % len(objs)]
+        ts = sane_times(ctx, o, 5, 3.0)
+        if len(ts) < 5:
+            continue
+        tarr = np.array([np.datetime64(t) for t in ts])
+        for label, func, marker, f_arr, f_one in (
+                ("lonlatalt", orbital.Orbital.get_lonlatalt, "lat2 = lat", lambda: o.get_lonlatalt(tarr), lambda t: o.get_lonlatalt(t)),
+                ("newton", orbital._Keplerians._iterate_newton_raphson, "self._sinEPW", lambda: o.get_position(tarr), lambda t: o.get_position(t))):
+            big_n, _ = count_lines(func, marker, f_arr)
+            ns = [count_lines(func, marker, lambda t=t: f_one(t))[0] for t in ts]
+            ctx.count("eval_corr_joint_counts")
+            ctx.bump("joint_extra_steps_" + label, big_n - min(ns))
+            if big_n < max(ns) or big_n == 0:
+                ctx.disagree("joint-steps", {"loop": label, "line1": a_, "line2": b_, "times": [t.isoformat() for t in ts]},
+                             {"array": big_n, "scalars": ns}, "array steps >= every scalar's steps")
 
 
-def bits(x):
-    return np.asarray(x, dtype=np.float64).tobytes()
+def toy_joint(xs, mode, fuel):
+    """numpy transcription of the code's loop shape on the toy step x -> x // 2 (negative = stuck, like NaN)."""
+    lat = np.array(xs, dtype=np.int64)
+    for n in range(1, fuel + 1):
+        lat2 = lat
+        lat = np.where(lat2 < 0, lat2, lat2 // 2)
+        conv = (np.abs(lat - lat2) < 2) & ~(lat < 0)
+        test = conv | (lat < 0) if mode == "r" else conv
+        if np.all(test):
+            return "%d %s" % (n, " ".join(str(int(v)) for v in lat))
+    return "none"
 
 
-def oracle(ctx):
-    from pyorbital import astronomy, orbital
-    t0 = dt.datetime(2020, 6, 1, 12)
-    # (1) the statement's table on the implementation (complete product)
+# ------------------------------------------------------------------ oracle (1): the statement's clauses on one cell
+UNIT = {"sun_zenith_angle": 1.0, "cos_zen": 1.0, "get_alt_az": 1.0, "observer_position": 1.0, "gmst": 1.0, "jdays": 1.0}
+
+
+def scalar_of(ck, v):
+    d = coord_dt(ck)
+    if d == "f32":
+        return np.float32(v)
+    if d == "i64":
+        return int(v)
+    return float(v)
+
+
+def angle_diff(fn, i, a, b):
+    d = abs(a - b)
+    if (fn == "get_alt_az" and i == 1) or fn == "gmst":
+        d = min(d, abs(d - 2 * math.pi))
+    return d
+
+
+def check_cell(fn, tk, ck, t0):
+    """Every clause of the statement on one cell of the product. Returns [(kind, detail, observed, required)]."""
+    import dask.array as da
+    bad = []
+    takes_coords = fn in COORD_FNS
+    probe = Probe()
+    t = mk_time(tk, t0)
+    lon, lat, alt = mk_coord(ck, 10, probe), mk_coord(ck, 40, probe), mk_coord(ck, 1, probe)
     with warnings.catch_warnings():
         warnings.simplefilter("ignore")
-        for fn in FNS:
-            for tk in TIME_KINDS:
-                t = mk_time(tk, t0)
-                for ck in (COORD_KINDS if fn not in ("gmst", "jdays") else ["pyfloat"]):
-                    ctx.count("eval_oracle_kinds")
-                    case = {"fn": fn, "time": tk, "coord": ck}
-                    try:
-                        res = call(fn, t, ck)
-                    except Exception as e:  # noqa
-                        ctx.violation("raises", case, type(e).__name__ + ": " + str(e)[:100], spec_descr(fn, tk, ck), site="astronomy." + fn)
-                        continue
-                    want = spec_descr(fn, tk, ck)
-                    for i, x in enumerate(res):
-                        d = descr(x)
-                        if fn == "observer_position" and i == 5:
-                            # the constant z-velocity may have a lower rank (it broadcasts); container and dtype must match
-                            if d.rsplit(":", 1)[0] != want.rsplit(":", 1)[0]:
-                                ctx.violation("result_kind", dict(case, index=i), d, want, site="astronomy." + fn)
-                        elif d != want:
-                            ctx.violation("result_kind", dict(case, index=i), d, want, site="astronomy." + fn)
-                    # values: ints / float32 / arrays are taken at their real values = the float64 scalar call
-                    ref = call(fn, mk_time("datetime", t0), "pyfloat")
-                    for i, (x, r) in enumerate(zip(res, ref)):
-                        xv = np.asarray(x.compute() if hasattr(x, "compute") else x, dtype=np.float64)
-                        tol = 2e-3 if ck.endswith("f32") else 1e-9
-                        first = float(xv.reshape(-1)[0])
-                        if abs(first - float(r)) > tol * max(1.0, abs(float(r))):
-                            ctx.violation("value_changed_by_kind", dict(case, index=i), first, float(r), site="astronomy." + fn)
-    # (2) one instant, every representation: bit-identical
-    objs = orbits.make_orbitals(ctx, ctx.size(4, 20))
-    n = ctx.size(250, 8000)
-    for k in range(n):
-        a_, b_, o = objs[k % len(objs)]
-        us_off = ctx.rng.randrange(-30 * 86400 * 10 ** 6, 30 * 86400 * 10 ** 6)
-        t = (o.tle.epoch.astype(dt.datetime) + dt.timedelta(microseconds=us_off))
-        if ctx.rng.random() < 0.5:
-            t = t.replace(microsecond=0)
-        if not orbits.answers(o, t):
-            continue
-        us = int((t - dt.datetime(1970, 1, 1)) / dt.timedelta(microseconds=1))
-        reps = {"datetime": t, "dt64us": np.datetime64(us, "us"), "dt64ns": np.datetime64(us * 1000, "ns"),
-                "objarr": np.array([t], dtype=object), "dtarr": np.array([np.datetime64(us, "us")])}
-        if us % 1000 == 0:
-            reps["dt64ms"] = np.datetime64(us // 1000, "ms")
-        if us % 10 ** 6 == 0:
-            reps["dt64s"] = np.datetime64(us // 10 ** 6, "s")
-        lon, lat, alt = ctx.rng.uniform(-180, 180), ctx.rng.uniform(-90, 90), ctx.rng.uniform(0, 2)
-        fns = {
-            "jdays": lambda r: astronomy.jdays(r),
-            "gmst": lambda r: astronomy.gmst(r),
-            "sun_zenith_angle": lambda r: astronomy.sun_zenith_angle(r, lon, lat),
-            "get_alt_az": lambda r: np.array(astronomy.get_alt_az(r, lon, lat)),
-            "observer_position": lambda r: np.array([np.asarray(x, dtype=float).reshape(-1)[0] for x in
-                                                     (lambda pv: list(pv[0]) + list(pv[1]))(astronomy.observer_position(r, lon, lat, alt))]),
-            "get_position": lambda r: np.array(o.get_position(r, normalize=False)),
-            "get_lonlatalt": lambda r: np.array(o.get_lonlatalt(r)),
-            "get_observer_look": lambda r: np.array(o.get_observer_look(r, lon, lat, alt)),
-            "module_look": lambda r: np.array(orbital.get_observer_look(np.float64(lon + 1), np.float64(lat / 2), np.float64(800.0), r,
-                                                                         np.float64(lon), np.float64(lat), np.float64(alt))),
-        }
-        for name, f in fns.items():
-            ctx.count("eval_oracle_repr")
-            ref = np.asarray(f(reps["datetime"]), dtype=np.float64).reshape(-1)
+        try:
+            res = call(fn, t, lon, lat, alt)
+        except Exception as e:  # noqa
+            return [("raises", {}, type(e).__name__ + ": " + str(e)[:120], "a result")]
+        tshape = SHAPES[time_rank(tk)]
+        cshape = SHAPES[coord_rank(ck)] if takes_coords else ()
+        common = np.broadcast_shapes(tshape, cshape)
+        is_dask = takes_coords and ck.startswith("dask")
+        want_dtype = "float32" if (takes_coords and coord_dt(ck) == "f32") else "float64"
+        all_scalar = common == () and not is_dask
+        if is_dask and probe.calls:
+            bad.append(("dask_computed_eagerly", {}, "%d block evaluations during the call" % probe.calls, "a lazy dask array"))
+        tg = time_grid(tk, t0)
+        lon_v, lat_v, alt_v = grid(cshape, 10), grid(cshape, 40), grid(cshape, 1)
+        computed = list(res)
+        if any(isinstance(x, da.Array) for x in res):
+            import dask
+            computed = list(dask.compute(*res, scheduler="synchronous"))
+        for i, x in enumerate(res):
+            where = {"index": i}
+            d = descr(x)
+            # dtype: ints and floats at real values (float64), float32 stays float32
+            xd = str(getattr(x, "dtype", "float64" if type(x) is float else type(x).__name__))
+            if xd != want_dtype:
+                bad.append(("dtype", where, d, want_dtype + (" (integers are taken at their real values)" if coord_dt(ck) == "i64" else "")))
+            # scalars give scalars
+            if all_scalar and not (isinstance(x, np.generic) or type(x) is float):
+                bad.append(("scalar_in_not_scalar_out", where, d, "a scalar"))
+            # dask stays lazy dask (and nothing else becomes dask)
+            if isinstance(x, da.Array) != is_dask:
+                bad.append(("dask_not_preserved", where, d, "a dask array" if is_dask else "no dask array"))
+            # shape: broadcasts to the common shape; the first component has it
+            shp = tuple(np.shape(x))
+            try:
+                ok = np.broadcast_shapes(shp, common) == common
+            except ValueError:
+                ok = False
+            if not ok or (i == 0 and shp != common):
+                bad.append(("shape", where, list(shp), "broadcastable to %s%s" % (list(common), ", equal for the first component" if i == 0 else "")))
+                continue
+            # values: equal, after broadcasting, to the scalar calls with scalars of the same dtype (1e-6 of the unit),
+            # and integer inputs are taken at their real values (= the float call)
+            xv = np.asarray(computed[i], dtype=np.float64)
+            xv = np.broadcast_to(xv, common)
+            for idx in np.ndindex(common):
+                tt = np.broadcast_to(tg, common)[idx]
+                lo, la, al = (np.broadcast_to(g, common)[idx] for g in (lon_v, lat_v, alt_v))
+                ref = call(fn, tt, scalar_of(ck, lo), scalar_of(ck, la), scalar_of(ck, al))[i]
+                if not angle_diff(fn, i, float(xv[idx]), float(ref)) <= 1e-6 * UNIT[fn]:
+                    bad.append(("array_vs_scalar", dict(where, element=list(idx)), float(xv[idx]), float(ref)))
+                    break
+                if takes_coords and coord_dt(ck) != "f64":
+                    real = float(call(fn, tt, float(lo), float(la), float(al))[i])
+                    tol = 1e-6 * UNIT[fn] if coord_dt(ck) == "i64" else 2e-3 * max(1.0, abs(real))
+                    if not angle_diff(fn, i, float(xv[idx]), real) <= tol:
+                        bad.append(("not_at_real_value", dict(where, element=list(idx)), float(xv[idx]), real))
+                        break
+    return bad
+
+
+# ------------------------------------------------------------------ oracle (2): one instant, every representation
+def representations(t):
+    us = int((t - EPOCH70) / dt.timedelta(microseconds=1))
+    reps = {"datetime": t, "dt64us": np.datetime64(us, "us"), "dt64ns": np.datetime64(us * 1000, "ns"),
+            "objarr1": np.array([t], dtype=object), "dtarr1": np.array([np.datetime64(us, "us")]),
+            "dtarr1ns": np.array([np.datetime64(us * 1000, "ns")]),
+            "objarr2": np.array([[t]], dtype=object)}
+    if us % 1000 == 0:
+        reps["dt64ms"] = np.datetime64(us // 1000, "ms")
+        reps["dtarr1ms"] = np.array([np.datetime64(us // 1000, "ms")])
+    if us % 10 ** 6 == 0:
+        reps["dt64s"] = np.datetime64(us // 10 ** 6, "s")
+    if us % (60 * 10 ** 6) == 0:
+        reps["dt64m"] = np.datetime64(us // (60 * 10 ** 6), "m")
+    return us, reps
+
+
+def time_fns(o, lon, lat, alt):
+    from pyorbital import astronomy, orbital
+
+    def vec(r):
+        return np.array([np.asarray(x, dtype=np.float64).reshape(-1)[0] for x in flat(r)])
+    return {
+        "jdays": lambda r: vec(astronomy.jdays(r)),
+        "jdays2000": lambda r: vec(astronomy.jdays2000(r)),
+        "gmst": lambda r: vec(astronomy.gmst(r)),
+        "sun_zenith_angle": lambda r: vec(astronomy.sun_zenith_angle(r, lon, lat)),
+        "cos_zen": lambda r: vec(astronomy.cos_zen(r, lon, lat)),
+        "get_alt_az": lambda r: vec(astronomy.get_alt_az(r, lon, lat)),
+        "observer_position": lambda r: vec(astronomy.observer_position(r, lon, lat, alt)),
+        "get_position": lambda r: np.array(o.get_position(r, normalize=False), dtype=np.float64).reshape(-1),
+        "get_lonlatalt": lambda r: vec(o.get_lonlatalt(r)),
+        "get_observer_look": lambda r: vec(o.get_observer_look(r, lon, lat, alt)),
+        "module_look": lambda r: vec(orbital.get_observer_look(np.float64(lon + 1), np.float64(lat / 2), np.float64(800.0), r,
+                                                               np.float64(lon), np.float64(lat), np.float64(alt))),
+    }
+
+
+def check_repr(o, t, lon, lat, alt, only=None):
+    """[(fn, representation, observed, reference)] where a representation is not bit-identical to the datetime's."""
+    us, reps = representations(t)
+    bad = []
+    n = 0
+    with warnings.catch_warnings():
+        warnings.simplefilter("ignore")
+        for name, f in time_fns(o, lon, lat, alt).items():
+            if only and name != only:
+                continue
+            ref = f(reps["datetime"])
             for rk, rv in reps.items():
                 if rk == "datetime":
                     continue
-                got = np.asarray(f(rv), dtype=np.float64).reshape(-1)
+                n += 1
+                got = f(rv)
                 if got.shape != ref.shape or got.tobytes() != ref.tobytes():
-                    ctx.violation("representation_not_bit_identical", {"fn": name, "utc": t.isoformat(), "repr": rk, "line1": a_, "line2": b_,
-                                                                       "lon": lon, "lat": lat, "alt": alt},
-                                  got.tolist(), ref.tolist(), site=name)
+                    bad.append((name, rk, got.tolist(), ref.tolist()))
                     break
-    # (3) arrays vs scalar calls after broadcasting, 1e-6 of the unit
-    for k in range(ctx.size(25, 400)):
+    return us, n, bad
+
+
+# ------------------------------------------------------------------ oracle (3): arrays vs broadcast scalar calls
+VARIANTS = {"flat": ((6,), (6,)), "outer": ((6,), (2, 1)), "grid": ((2, 3), (2, 3)), "time_only": ((2, 3), ())}
+
+
+def broadcast_calls(o):
+    from pyorbital import astronomy, orbital
+    # name -> (array call, scalar call, needs coordinates, wrap period per component or None)
+    return {
+        "get_position": (lambda T, lo, la, al: flat(o.get_position(T, normalize=False)),
+                         lambda t, lo, la, al: flat(tuple(tuple(v) for v in o.get_position(t, normalize=False))), False, None, True),
+        "get_lonlatalt": (lambda T, lo, la, al: flat(o.get_lonlatalt(T)), lambda t, lo, la, al: flat(o.get_lonlatalt(t)), False, [360.0, None, None], False),
+        "get_observer_look": (lambda T, lo, la, al: flat(o.get_observer_look(T, lo, la, al)),
+                              lambda t, lo, la, al: flat(o.get_observer_look(t, lo, la, al)), True, [360.0, None], False),
+        "module_look": (lambda T, lo, la, al: flat(orbital.get_observer_look(lo + 1.0, la / 2.0, al * 0 + 800.0, T, lo, la, al)),
+                        lambda t, lo, la, al: flat(orbital.get_observer_look(lo + 1.0, la / 2.0, 800.0, t, lo, la, al)), True, [360.0, None], False),
+        "sun_zenith_angle": (lambda T, lo, la, al: [astronomy.sun_zenith_angle(T, lo, la)], lambda t, lo, la, al: [astronomy.sun_zenith_angle(t, lo, la)], True, None, False),
+        "cos_zen": (lambda T, lo, la, al: [astronomy.cos_zen(T, lo, la)], lambda t, lo, la, al: [astronomy.cos_zen(t, lo, la)], True, None, False),
+        "get_alt_az": (lambda T, lo, la, al: flat(astronomy.get_alt_az(T, lo, la)), lambda t, lo, la, al: flat(astronomy.get_alt_az(t, lo, la)), True, [None, 2 * math.pi], False),
+        "observer_position": (lambda T, lo, la, al: flat(astronomy.observer_position(T, lo, la, al)),
+                              lambda t, lo, la, al: flat(astronomy.observer_position(t, lo, la, al)), True, None, False),
+        "gmst": (lambda T, lo, la, al: [astronomy.gmst(T)], lambda t, lo, la, al: [astronomy.gmst(t)], False, [2 * math.pi], False),
+        "jdays": (lambda T, lo, la, al: [astronomy.jdays(T)], lambda t, lo, la, al: [astronomy.jdays(t)], False, None, False),
+    }
+
+
+def check_broadcast(o, name, variant, times_us, lons, lats, alts):
+    """Array call of `name` with the variant's shapes vs the scalar calls. Returns (n_compared, [violations])."""
+    tshape, cshape = VARIANTS[variant]
+    fa, fs, needs_coords, wrap, pos_layout = broadcast_calls(o)[name]
+    T = np.array([np.datetime64(int(u), "us") for u in times_us]).reshape(tshape)
+    ts = np.array([EPOCH70 + dt.timedelta(microseconds=int(u)) for u in times_us], dtype=object).reshape(tshape)
+    n = int(np.prod(cshape)) if cshape else 1
+    if cshape == ():
+        lo, la, al = float(lons[0]), float(lats[0]), float(alts[0])
+    else:
+        lo, la, al = (np.array(v[:n], dtype=float).reshape(cshape) for v in (lons, lats, alts))
+    common = np.broadcast_shapes(tshape, cshape) if needs_coords else tshape
+    bad = []
+    cnt = 0
+    with warnings.catch_warnings():
+        warnings.simplefilter("ignore")
+        arr = fa(T, lo, la, al)
+        if pos_layout:
+            # get_position returns two (3, *shape) arrays
+            arr = [c for block in arr for c in np.asarray(block)]
+        for idx in np.ndindex(common):
+            tt = np.broadcast_to(ts, common)[idx]
+            l1, l2, l3 = (float(np.broadcast_to(np.asarray(v), common)[idx]) if needs_coords else 0.0 for v in (lo, la, al))
+            one = fs(tt, l1, l2, l3)
+            for i, (a, s) in enumerate(zip(arr, one)):
+                cnt += 1
+                shp = tuple(np.shape(a))
+                try:
+                    av = float(np.broadcast_to(np.asarray(a, dtype=float), common)[idx])
+                except ValueError:
+                    bad.append(("shape", i, list(idx), list(shp), list(common)))
+                    return cnt, bad
+                d = abs(av - float(s))
+                if wrap and wrap[i]:
+                    d = min(d, abs(d - wrap[i]))
+                if not d <= 1e-6:
+                    bad.append(("array_vs_scalar", i, list(idx), av, float(s)))
+                    return cnt, bad
+            if len(arr) != len(one):
+                bad.append(("arity", 0, list(idx), len(arr), len(one)))
+                return cnt, bad
+    return cnt, bad
+
+
+def oracle(ctx):
+    t0 = base_instant(ctx)
+    # (1) the statement's clauses on the complete product
+    for fn in FNS:
+        for tk in TIME_KINDS:
+            for ck in (COORD_KINDS if fn in COORD_FNS else ["pyfloat"]):
+                ctx.count("eval_oracle_kinds")
+                for kind, detail, obs, req in check_cell(fn, tk, ck, t0):
+                    ctx.violation(kind, dict({"check": "kind", "fn": fn, "time": tk, "coord": ck, "t0": t0.isoformat()}, **detail),
+                                  obs, req, site="astronomy." + fn)
+    # (2) one instant, every representation: bit-identical
+    objs = orbits.make_orbitals(ctx, ctx.size(4, 20))
+    for k in range(ctx.size(300, 8000)):
         a_, b_, o = objs[k % len(objs)]
-        ts = orbits.rand_times(ctx, o, 6, days=3.0)
+        us_off = ctx.rng.randrange(-30 * 86400 * 10 ** 6, 30 * 86400 * 10 ** 6)
+        t = (o.tle.epoch.astype(dt.datetime) + dt.timedelta(microseconds=us_off))
+        r = ctx.rng.random()
+        if r < 0.15:
+            t = t.replace(second=0, microsecond=0)
+        elif r < 0.5:
+            t = t.replace(microsecond=0)
+        elif r < 0.6:
+            t = t.replace(microsecond=(t.microsecond // 1000) * 1000)
+        if not sane(o, t):
+            continue
+        lon, lat, alt = ctx.rng.uniform(-180, 180), ctx.rng.uniform(-90, 90), ctx.rng.uniform(0, 2)
+        us, n, bad = check_repr(o, t, lon, lat, alt)
+        ctx.count("eval_oracle_repr", n)
+        ctx.distinct(("repr", us))
+        for name, rk, got, ref in bad:
+            ctx.violation("representation_not_bit_identical",
+                          {"check": "repr", "fn": name, "utc": t.isoformat(), "repr": rk, "line1": a_, "line2": b_, "lon": lon, "lat": lat, "alt": alt},
+                          got, ref, site=name)
+    # (3) arrays vs scalar calls after broadcasting, 1e-6 of the unit
+    names = list(broadcast_calls(objs[0][2]))
+    for k in range(ctx.size(32, 600)):
+        a_, b_, o = objs[k % len(objs)]
+        ts = sane_times(ctx, o, 6, 3.0)
         if len(ts) < 6:
             continue
-        tarr = np.array([np.datetime64(t) for t in ts])
-        lons = np.array([ctx.rng.uniform(-180, 180) for _ in ts])
-        lats = np.array([ctx.rng.uniform(-90, 90) for _ in ts])
-        alts = np.array([ctx.rng.uniform(0, 2) for _ in ts])
-        lon2 = np.tile(lons, (2, 1))
-        lat2 = np.tile(lats, (2, 1))
-        calls = {
-            "get_position": (lambda: np.array(o.get_position(tarr, normalize=False)).reshape(6, -1),
-                             lambda i: np.array(o.get_position(ts[i], normalize=False)).reshape(6), 7000.0),
-            "get_lonlatalt": (lambda: np.array(o.get_lonlatalt(tarr)), lambda i: np.array(o.get_lonlatalt(ts[i])), 1.0),
-            "get_observer_look": (lambda: np.array(o.get_observer_look(tarr, lons, lats, alts)),
-                                  lambda i: np.array(o.get_observer_look(ts[i], lons[i], lats[i], alts[i])), 1.0),
-            "sun_zenith_angle": (lambda: np.array([astronomy.sun_zenith_angle(tarr, lons, lats)]),
-                                 lambda i: np.array([astronomy.sun_zenith_angle(ts[i], lons[i], lats[i])]), 1.0),
-            "cos_zen_2d": (lambda: np.array([astronomy.cos_zen(tarr, lon2, lat2)[1]]),
-                           lambda i: np.array([astronomy.cos_zen(ts[i], lons[i], lats[i])]), 1.0),
-            "get_alt_az": (lambda: np.array(astronomy.get_alt_az(tarr, lons, lats)),
-                           lambda i: np.array(astronomy.get_alt_az(ts[i], lons[i], lats[i])), 1.0),
-            "observer_position": (lambda: np.array([np.broadcast_to(x, (6,)) for x in (lambda pv: list(pv[0]) + list(pv[1]))(astronomy.observer_position(tarr, lons, lats, alts))]),
-                                  lambda i: np.array((lambda pv: list(pv[0]) + list(pv[1]))(astronomy.observer_position(ts[i], lons[i], lats[i], alts[i])), dtype=float), 7000.0),
-            "gmst": (lambda: np.array([astronomy.gmst(tarr)]), lambda i: np.array([astronomy.gmst(ts[i])]), 1.0),
-            "jdays": (lambda: np.array([astronomy.jdays(tarr)]), lambda i: np.array([astronomy.jdays(ts[i])]), 1.0),
-        }
-        for name, (fa, fs, unit) in calls.items():
-            ctx.count("eval_oracle_broadcast")
-            arr = fa()
-            for i in range(len(ts)):
-                one = fs(i)
-                col = arr[:, i]
-                d = np.abs(col - one)
-                if name in ("get_observer_look", "get_alt_az", "get_lonlatalt"):
-                    d = np.minimum(d, np.abs(d - 360.0)) if name != "get_alt_az" else np.minimum(d, np.abs(d - 2 * math.pi))
-                if not np.all(d <= 1e-6 * unit):
-                    ctx.violation("array_vs_scalar", {"fn": name, "line1": a_, "line2": b_, "utc": ts[i].isoformat(), "index": i,
-                                                      "lon": float(lons[i]), "lat": float(lats[i])},
-                                  col.tolist(), one.tolist(), site=name)
-                    break
+        times_us = [int((t - EPOCH70) / dt.timedelta(microseconds=1)) for t in ts]
+        lons = [ctx.rng.uniform(-180, 180) for _ in ts]
+        lats = [ctx.rng.uniform(-90, 90) for _ in ts]
+        alts = [ctx.rng.uniform(0, 2) for _ in ts]
+        variant = list(VARIANTS)[k % len(VARIANTS)]
+        for name in names:
+            try:
+                n, bad = check_broadcast(o, name, variant, times_us, lons, lats, alts)
+            except Exception as e:  # noqa
+                n, bad = 1, [("raises", 0, [], type(e).__name__ + ": " + str(e)[:120], "a result")]
+            ctx.count("eval_oracle_broadcast", n)
+            ctx.bump("broadcast_variant", variant)
+            ctx.distinct(("bc", name, variant, a_[2:7], times_us[0]))
+            for kind, i, idx, got, ref in bad:
+                ctx.violation(kind, {"check": "broadcast", "fn": name, "variant": variant, "line1": a_, "line2": b_, "times_us": times_us,
+                                     "lons": lons, "lats": lats, "alts": alts, "component": i, "element": idx}, got, ref, site=name)
 
 
 def match_known(entry, v):
@@ -292,5 +745,52 @@ def match_known(entry, v):
 
 
 def replay(ctx, case):
-    print(case.get("input", case))
+    from pyorbital import orbital
+    inp = case.get("input", case)
+    if case.get("no_failing_input_found"):
+        # a tie broke without a failing input: re-evaluate the recorded correspondence disagreements on this tree
+        still = 0
+        tracer = Tracer()
+        for d in case.get("first_disagreements", []):
+            c = d["case"]
+            with warnings.catch_warnings():
+                warnings.simplefilter("ignore")
+                if d["op"] == "c08kind":
+                    got = observe(c["fn"], c["time"], c["coord"], dt.datetime.fromisoformat(c["t0"]), tracer)
+                    same = got == d["model"]
+                elif d["op"] == "c08op":
+                    got = sorted(impl_op(c["op"], av_value(c["a"]), av_value(c["b"]) if c.get("b") else None))
+                    same = got == [d["model"]]
+                else:
+                    print("recorded disagreement:", d["op"], c)
+                    continue
+            print(d["op"], c, "implementation:", got, "model:", d["model"], "->", "agree" if same else "DISAGREE")
+            still += 0 if same else 1
+        for b in case.get("broken", []):
+            print("broken:", b.get("stage"), str(b.get("detail"))[:300])
+        return 1 if still else 0
+    chk = inp.get("check")
+    if chk == "kind":
+        bad = check_cell(inp["fn"], inp["time"], inp["coord"], dt.datetime.fromisoformat(inp["t0"]))
+        for b in bad:
+            print("violation:", b)
+        print("cell", inp["fn"], inp["time"], inp["coord"], "->", "%d violation(s)" % len(bad))
+        return 1 if bad else 0
+    o = orbital.Orbital("x", line1=inp["line1"], line2=inp["line2"])
+    if chk == "repr":
+        us, n, bad = check_repr(o, dt.datetime.fromisoformat(inp["utc"]), inp["lon"], inp["lat"], inp["alt"], only=inp["fn"])
+        for b in bad:
+            print("not bit-identical:", b)
+        print(inp["fn"], inp["utc"], "->", "%d of %d representations differ" % (len(bad), n))
+        return 1 if bad else 0
+    if chk == "broadcast":
+        try:
+            n, bad = check_broadcast(o, inp["fn"], inp["variant"], inp["times_us"], inp["lons"], inp["lats"], inp["alts"])
+        except Exception as e:  # noqa
+            n, bad = 1, [("raises", type(e).__name__ + ": " + str(e)[:120])]
+        for b in bad:
+            print("violation:", b)
+        print(inp["fn"], inp["variant"], "->", "%d violation(s) in %d comparisons" % (len(bad), n))
+        return 1 if bad else 0
+    print("unknown case", inp)
     return 0
